@@ -37,7 +37,7 @@ ASSUMPTIONS = [
 
 
 def budget(tier):
-    return dict(examples=1200, seconds=40) if tier == "quick" else dict(examples=15000, seconds=420)
+    return dict(examples=600, seconds=40) if tier == "quick" else dict(examples=8000, seconds=400)
 
 
 # ------------------------------------------------------------------------------------------------ strategies
@@ -129,19 +129,21 @@ _hset = st.builds(
 
 
 def _hcont(children):
-    keys = st.one_of(st.integers(0, 9), st.sampled_from(["p", "q", "r", "s"]))
+    keys = st.sampled_from([0, 1, 2, 3, 7, "p", "q", "r", "s"])
+
+    @st.composite
+    def _dict(draw):
+        ks = draw(st.lists(keys, max_size=3, unique_by=repr))
+        return {"t": "dict", "c": [[k, draw(children)] for k in ks]}
+
     return st.one_of(
         st.builds(lambda c: {"t": "list", "c": c}, st.lists(children, max_size=3)),
         st.builds(lambda c: {"t": "tuple", "c": c}, st.lists(children, max_size=3)),
-        st.builds(
-            lambda ks, cs: {"t": "dict", "c": [[k, c] for k, c in zip(ks, cs)]},
-            st.lists(keys, min_size=0, max_size=4, unique_by=lambda k: (type(k).__name__, k)),
-            st.lists(children, min_size=4, max_size=4),
-        ),
+        _dict(),
     )
 
 
-_htree = st.recursive(st.one_of(_hleaf, _hleaf, _hset), _hcont, max_leaves=8)
+_htree = st.recursive(st.one_of(_hleaf, _hleaf, _hset), _hcont, max_leaves=5)
 
 
 @st.composite
@@ -240,7 +242,7 @@ def _run_tr(case, res):
             if t.as_bits() != expected_bits(v):
                 return res.fail(f"transpose({c}) has bits {t.as_bits():#x}, expected {expected_bits(v):#x}")
             # the documented element-wise law, through the public indexing API
-            for o, ok in enumerate(okeys):
+            for o, ok in enumerate(okeys if v == vals[0] else []):
                 for i, ik in enumerate(ikeys):
                     a, b = c[ok][ik], t[ik][ok]
                     a = a.as_bits() if isinstance(a, data.Const) else a
